@@ -132,9 +132,10 @@ where
     fn update_achromatic_frame(
         &mut self,
         spi: &mut SPI,
-        _delay: &mut DELAY,
+        delay: &mut DELAY,
         black: &[u8],
     ) -> Result<(), SPI::Error> {
+        self.wait_until_idle(spi, delay)?;
         self.interface.cmd(spi, Command::DataStartTransmission1)?;
         self.interface.data(spi, black)?;
         self.interface.cmd(spi, Command::DataStop)?;
